@@ -711,6 +711,12 @@ func display(computer *ComputedStyle, _ pr.KnownProp, _value pr.CssProperty) pr.
 			}
 		}
 	}
+	if position.Bool { // running element
+		// it is taken out of the flow, and so out of its table
+		if d := value[0]; value[1] == "" && value[2] == "" && strings.HasPrefix(d, "table-") {
+			return pr.Display{"block", "flow"}
+		}
+	}
 	return value
 }
 
